@@ -59,7 +59,15 @@ where
         .and_then(|n| u64::try_from(n).map_err(ReadError::InvalidLength))?;
 
     let mut names_reader = BufReader::new(reader.take(l_nm));
-    read_names(&mut names_reader)
+    let names = read_names(&mut names_reader)?;
+
+    // The names are read until the reader is exhausted, which is either after `l_nm` bytes or when
+    // the underlying stream ends early.
+    if names_reader.into_inner().limit() > 0 {
+        return Err(ReadError::Io(io::Error::from(io::ErrorKind::UnexpectedEof)));
+    }
+
+    Ok(names)
 }
 
 fn read_names<R>(reader: &mut R) -> Result<ReferenceSequenceNames, ReadError>
